@@ -20,6 +20,7 @@ import (
 	"sort"
 	"strings"
 	"sync"
+	"sync/atomic"
 	"testing"
 	"testing/synctest"
 	"time"
@@ -51,6 +52,7 @@ type scnSpec struct {
 	chain  string // short | long
 	zrtt   string // none | accept | reject | reject-params (session resumption with 0-RTT data)
 	net    string // ok | blackhole | hsblock: paths on which the handshake cannot complete (timeouts)
+	cancel string // none | t<ms> | vn | retry | first: when the application cancels the dial context
 }
 
 type faultSpec struct {
@@ -71,16 +73,18 @@ type injSpec struct {
 
 // one datagram handed to the client
 type delivery struct {
-	src    string // g<idx>:<fate> | i<id>
-	at     time.Duration
-	data   []byte
-	conn   int // -1: not routed to a live connection
-	pre    quic.VerifGateState
-	post   quic.VerifGateState
-	parts  []partSum
-	extra  []string
-	closed string
-	line   string
+	appClosed bool   // the application cancelled the dial while this datagram was being processed
+	srv       bool   // handed to the server (else to the client)
+	src       string // g<idx>:<fate> | i<id>
+	at        time.Duration
+	data      []byte
+	conn      int // -1: not routed to a live connection
+	pre       quic.VerifGateState
+	post      quic.VerifGateState
+	parts     []partSum
+	extra     []string
+	closed    string
+	line      string
 }
 
 type partSum struct {
@@ -114,6 +118,13 @@ type scenario struct {
 	rec        *recorder
 	ctr        *quic.Transport
 	cpc        *simnet.SimConn
+	srec       *recorder       // the server connections' qlog events
+	str        *quic.Transport // server side (nil: the server is not observed)
+	spc        *simnet.SimConn
+	sconns     []*quic.Conn
+	genuineS   [][]byte // genuine c2s datagrams handed to the server so far
+	nGenuineS  int
+	shsDone    bool
 	conns      []*quic.Conn
 	seen       map[int]map[string]bool // per conn: parts already processed
 	buffered   map[int][]partSum       // per conn: parts queued as undecryptable, in order
@@ -125,6 +136,8 @@ type scenario struct {
 	done       chan struct{}
 	resetCh    chan struct{}
 	auth       []string
+	cancelled  atomic.Bool             // the scenario cancelled the dial context
+	outp       **outcome               // where the outcome is published as soon as it is known (survives a deadlocked bubble)
 	cands      []protocol.ConnectionID // destination connection IDs the client has used
 	srvSCIDs   [][]byte                // source connection IDs seen in genuine server long-header packets
 	retrySCIDs [][]byte
@@ -181,6 +194,24 @@ func (sc *scenario) noteConns() {
 	for _, c := range sc.ctr.VerifLiveConns() {
 		sc.connIndex(c)
 	}
+}
+
+// server connections are numbered from srvBase in the per-connection maps
+const srvBase = 1000
+
+func (sc *scenario) sconnIndex(c *quic.Conn) int {
+	if c == nil {
+		return -1
+	}
+	sc.mu.Lock()
+	defer sc.mu.Unlock()
+	for i, x := range sc.sconns {
+		if x == c {
+			return srvBase + i
+		}
+	}
+	sc.sconns = append(sc.sconns, c)
+	return srvBase + len(sc.sconns) - 1
 }
 
 func (sc *scenario) isTracing() bool {
@@ -335,12 +366,27 @@ func evTxt(ev qlogwriter.Event) string {
 
 // deliver hands one datagram to the client, waits until the client is quiescent and records what happened.
 func (sc *scenario) deliver(src string, data, orig []byte, intactAll bool) {
-	synctest.Wait() // whatever else woke up at this instant has run to completion: the client is quiescent
+	sc.deliverTo(false, src, data, orig, intactAll)
+}
+
+// deliverTo hands one datagram to the client or to the server, waits until everything is quiescent and records
+// what the receiving connection did with it.
+func (sc *scenario) deliverTo(srv bool, src string, data, orig []byte, intactAll bool) {
+	synctest.Wait() // whatever else woke up at this instant has run to completion: both endpoints are quiescent
 	traced := sc.isTracing()
 	sc.noteConns()
 	sc.noteClientCIDs()
-	conn := sc.ctr.VerifRoute(data)
-	d := &delivery{src: src, at: sc.nw.now(), data: data, conn: sc.connIndex(conn)}
+	tr, pc, rec, from, to := sc.ctr, sc.cpc, sc.rec, net.Addr(serverAddr), net.Addr(clientAddr)
+	if srv {
+		tr, pc, rec, from, to = sc.str, sc.spc, sc.srec, clientAddr, serverAddr
+	}
+	conn := tr.VerifRoute(data)
+	d := &delivery{srv: srv, src: src, at: sc.nw.now(), data: data}
+	if srv {
+		d.conn = sc.sconnIndex(conn)
+	} else {
+		d.conn = sc.connIndex(conn)
+	}
 	srcLen := 0
 	if conn != nil {
 		d.pre = conn.VerifGateState()
@@ -377,15 +423,15 @@ func (sc *scenario) deliver(src string, data, orig []byte, intactAll bool) {
 			}
 		}
 	}
-	type keyst struct{ ini, hs, one string }
+	type keyst struct{ ini, hs, one, zero string }
 	var kpre, kpost keyst
 	preOpen := make([]int, len(d.parts)) // -1 unknown, 0 no, 1 yes
 	if conn != nil {
-		kpre.ini, kpre.hs, kpre.one = conn.VerifKeys()
+		kpre.ini, kpre.hs, kpre.one, kpre.zero = conn.VerifKeys()
 		for i := range d.parts {
 			preOpen[i] = -1
 			p := &d.parts[i]
-			if (p.kind == "initial" || p.kind == "handshake") && p.parse == "ok" {
+			if (p.kind == "initial" || p.kind == "handshake" || (srv && p.kind == "0rtt")) && p.parse == "ok" {
 				if o, known := conn.VerifTryOpenLong(p.raw); known {
 					preOpen[i] = 0
 					if o {
@@ -395,17 +441,18 @@ func (sc *scenario) deliver(src string, data, orig []byte, intactAll bool) {
 			}
 		}
 	}
-	sc.rec.Lock()
-	n0 := len(sc.rec.Events)
-	sc.rec.Unlock()
-	sc.cpc.RecvPacket(simnet.Packet{From: serverAddr, To: clientAddr, Data: append([]byte(nil), data...)})
+	rec.Lock()
+	n0 := len(rec.Events)
+	rec.Unlock()
+	cancelledBefore := sc.cancelled.Load()
+	pc.RecvPacket(simnet.Packet{From: from, To: to, Data: append([]byte(nil), data...)})
 	synctest.Wait()
-	sc.rec.Lock()
-	evs := append([]qlogwriter.Event(nil), sc.rec.Events[n0:]...)
-	sc.rec.Unlock()
+	rec.Lock()
+	evs := append([]qlogwriter.Event(nil), rec.Events[n0:]...)
+	rec.Unlock()
 	if conn != nil {
 		d.post = conn.VerifGateState()
-		kpost.ini, kpost.hs, kpost.one = conn.VerifKeys()
+		kpost.ini, kpost.hs, kpost.one, kpost.zero = conn.VerifKeys()
 		for i := range d.parts {
 			p := &d.parts[i]
 			k := kpre
@@ -419,10 +466,12 @@ func (sc *scenario) deliver(src string, data, orig []byte, intactAll bool) {
 				p.keys = k.hs
 			case "short":
 				p.keys = k.one
+			case "0rtt":
+				p.keys = k.zero
 			default:
 				p.keys = "avail"
 			}
-			if p.kind == "initial" || p.kind == "handshake" {
+			if p.kind == "initial" || p.kind == "handshake" || (srv && p.kind == "0rtt") {
 				// the real packet protection decides `opens`: before the delivery when the keys were there, else after
 				switch {
 				case preOpen[i] >= 0:
@@ -434,14 +483,33 @@ func (sc *scenario) deliver(src string, data, orig []byte, intactAll bool) {
 			}
 		}
 	}
+	created := false
+	if srv && conn == nil {
+		// the datagram made the server create a connection: not traced (there was no state before it), but what
+		// the new connection processed counts for the duplicate bookkeeping
+		if c2 := tr.VerifRoute(data); c2 != nil {
+			d.conn = sc.sconnIndex(c2)
+			created = true
+		}
+	}
+	// a close in this window that follows the application's own cancellation of the dial is not the datagram's doing
+	d.appClosed = !srv && !cancelledBefore && sc.cancelled.Load()
 	sc.attribute(d, evs)
+	if created {
+		d.conn = -1
+	}
 	sc.noteConns()
 	if conn != nil && d.post.HandshakeComplete {
-		sc.hsDone = true
+		if srv {
+			sc.shsDone = true
+		} else {
+			sc.hsDone = true
+		}
 	}
 	// only the handshake phase is traced: afterwards duplicate detection forgets old packet numbers (C07)
-	// and the active connection ID moves (C16), which are not inputs of the gate model
-	skip := (conn != nil && d.pre.HandshakeComplete) || (conn == nil && sc.hsDone)
+	// and the active connection ID moves (C16), which are not inputs of the gate model. Datagrams for which the
+	// server has no connection yet (the first Initial, before the server created one) are not traced either.
+	skip := (conn != nil && d.pre.HandshakeComplete) || (conn == nil && (srv || sc.hsDone))
 	if os.Getenv("GATE_DEBUG") != "" {
 		fmt.Fprintf(os.Stderr, "deliver %s conn=%d tracing=%v skip=%v hsDone=%v preHC=%v\n", src, d.conn, traced, skip, sc.hsDone, d.pre.HandshakeComplete)
 	}
@@ -536,6 +604,10 @@ func (sc *scenario) attribute(d *delivery, evs []qlogwriter.Event) {
 				d.parts[last].react = fmt.Sprintf("vn:recreate:%d", uint32(e.ChosenVersion))
 			}
 		case qlog.ConnectionClosed:
+			if d.appClosed && e.ApplicationError != nil {
+				d.extra = append(d.extra, "closed:cancelled")
+				continue
+			}
 			if lastExtra {
 				// closed while handling a packet that had been queued earlier: not this datagram's doing
 				d.extra = append(d.extra, "closed:"+closedTxt(e))
@@ -559,9 +631,12 @@ func (sc *scenario) attribute(d *delivery, evs []qlogwriter.Event) {
 func (d *delivery) render() string {
 	var sb strings.Builder
 	fmt.Fprintf(&sb, "src=%s t=%d", d.src, d.at.Nanoseconds())
-	if d.conn < 0 {
+	switch {
+	case d.conn < 0:
 		fmt.Fprintf(&sb, " conn=-")
-	} else {
+	case d.srv:
+		fmt.Fprintf(&sb, " conn=s%d ; pre %s phc=%s", d.conn-srvBase, stateTxt(d.pre, true), boolTxt(d.post.HandshakeComplete))
+	default:
 		fmt.Fprintf(&sb, " conn=%d ; pre %s phc=%s", d.conn, stateTxt(d.pre, true), boolTxt(d.post.HandshakeComplete))
 	}
 	for i := range d.parts {
@@ -593,6 +668,24 @@ func (sc *scenario) craft(in *injSpec) (data, orig []byte, intact bool) {
 	if !k.ok {
 		return nil, nil, false
 	}
+	genuine := sc.genuine
+	if in.p["to"] == "s" {
+		// a packet for the server: addressed to the ID the client currently sends to, "from" the client's ID;
+		// the Initial keys are those of the client's first Initial (after a Retry: of the Retry's source ID)
+		ks := knowledge{version: k.version, cSCID: k.cDCID, cDCID: k.cDCID, sSCID: k.cSCID, hasS: true, ok: true, toSrv: true}
+		sc.mu.Lock()
+		if n := len(sc.conns); n > 0 {
+			g := sc.conns[n-1].VerifGateState()
+			if g.HasRetrySrcConnID {
+				ks.cDCID = protocol.ParseConnectionID(g.RetrySrcConnID)
+			} else {
+				ks.cDCID = protocol.ParseConnectionID(g.OrigDestConnID)
+			}
+		}
+		sc.mu.Unlock()
+		k = ks
+		genuine = sc.genuineS
+	}
 	r := vh.NewRand(in.seed)
 	g := func(key, def string) string {
 		if v, ok := in.p[key]; ok {
@@ -601,14 +694,14 @@ func (sc *scenario) craft(in *injSpec) (data, orig []byte, intact bool) {
 		return def
 	}
 	pick := func() []byte {
-		if len(sc.genuine) == 0 {
+		if len(genuine) == 0 {
 			return nil
 		}
 		i := int(vh.Atoi64(g("src", "0")))
-		if i < 0 || i >= len(sc.genuine) {
-			i = len(sc.genuine) - 1
+		if i < 0 || i >= len(genuine) {
+			i = len(genuine) - 1
 		}
-		return sc.genuine[i]
+		return genuine[i]
 	}
 	switch in.kind {
 	case "retry":
@@ -693,7 +786,7 @@ func (sc *scenario) inject(in *injSpec) {
 			one.seed = in.seed + uint64(i)*7919
 			data, _, _ := sc.craft(&one)
 			if len(data) > 0 {
-				sc.deliver(fmt.Sprintf("i%d:flood", in.id), data, nil, false)
+				sc.deliverTo(in.p["to"] == "s", fmt.Sprintf("i%d:flood", in.id), data, nil, false)
 			}
 		}
 		return
@@ -702,13 +795,17 @@ func (sc *scenario) inject(in *injSpec) {
 	if len(data) == 0 {
 		return
 	}
-	sc.deliver(fmt.Sprintf("i%d:%s", in.id, in.kind), data, orig, intact)
+	sc.deliverTo(in.p["to"] == "s", fmt.Sprintf("i%d:%s", in.id, in.kind), data, orig, intact)
 }
 
-func (sc *scenario) fire(after int) {
+// fire runs the injections due after the `after`-th genuine datagram of the direction they attack
+func (sc *scenario) fire(after int, srv bool) {
 	for i := range sc.injs {
 		in := &sc.injs[i]
-		if in.after != after {
+		if in.after != after || (in.p["to"] == "s") != srv {
+			continue
+		}
+		if srv && sc.str == nil {
 			continue
 		}
 		if in.delay > 0 {
@@ -743,11 +840,23 @@ func (sc *scenario) deliverLoop(stopped chan struct{}) {
 				synctest.Wait()
 				sc.noteConns()
 				if sc.isTracing() {
-					sc.fire(0)
+					sc.fire(0, false)
 				}
 			case item.inj != nil:
 				if sc.isTracing() {
 					sc.inject(item.inj)
+				}
+			case item.toSrv:
+				if sc.str == nil {
+					sc.spc.RecvPacket(simnet.Packet{From: clientAddr, To: serverAddr, Data: item.data})
+					continue
+				}
+				sc.genuineS = append(sc.genuineS, item.orig)
+				intact := item.fate == "ok" || item.fate == "dup" || item.fate == "delay"
+				sc.deliverTo(true, fmt.Sprintf("g%d:%s", item.gidx, item.fate), item.data, item.orig, intact)
+				sc.nGenuineS++
+				if sc.isTracing() {
+					sc.fire(sc.nGenuineS, true)
 				}
 			default:
 				sc.noteGenuine(item.orig)
@@ -761,7 +870,7 @@ func (sc *scenario) deliverLoop(stopped chan struct{}) {
 				sc.deliver(fmt.Sprintf("g%d:%s", item.gidx, item.fate), item.data, item.orig, intact)
 				sc.nGenuine++
 				if sc.isTracing() {
-					sc.fire(sc.nGenuine)
+					sc.fire(sc.nGenuine, false)
 				}
 			}
 			continue
@@ -780,6 +889,7 @@ func (sc *scenario) deliverLoop(stopped chan struct{}) {
 			return
 		case <-sc.resetCh:
 			sc.hsDone, sc.nGenuine, sc.genuine = false, 0, nil
+			sc.shsDone, sc.nGenuineS, sc.genuineS = false, 0, nil
 		case <-sc.nw.wake:
 		case <-tc:
 		}
@@ -888,12 +998,17 @@ func (d *detRand) Read(b []byte) (int, error) {
 type recorder struct {
 	sync.Mutex
 	Events []qlogwriter.Event
+	hook   func(qlogwriter.Event) // called from the connection's run loop, after the event was recorded
 }
 
 func (r *recorder) RecordEvent(ev qlogwriter.Event) {
 	r.Lock()
 	r.Events = append(r.Events, ev)
+	h := r.hook
 	r.Unlock()
+	if h != nil {
+		h(ev)
+	}
 }
 func (r *recorder) Close() error { return nil }
 
@@ -950,6 +1065,8 @@ type outcome struct {
 	cids     string
 	ccids    string
 	vers     string
+	clag     int64 // virtual ns between the cancellation of the dial context by the scenario and Dial returning (-1: not cancelled)
+	leaked   bool  // a Dial call never returned: its goroutine is left behind
 	acc      string
 	echo     string
 	cleft    int
@@ -965,8 +1082,8 @@ func (o *outcome) txt() string {
 	if o.ztxt != "" {
 		z = " " + o.ztxt
 	}
-	return z2(fmt.Sprintf("dial=%s hang=%s t=%d bound=%d att=%d vers=%s cv=%d sv=%d calpn=%s salpn=%s c0=%s s0=%s cids=%s ccids=%s acc=%s echo=%s cleft=%d sleft=%d redial=%s",
-		o.dial, boolTxt(o.hang), o.t.Nanoseconds(), o.bound.Nanoseconds(), o.attempts, o.vers, o.cv, o.sv, o.calpn, o.salpn, boolTxt(o.c0), boolTxt(o.s0), o.cids, o.ccids, o.acc, o.echo, o.cleft, o.sleft, o.redial), z)
+	return z2(fmt.Sprintf("dial=%s hang=%s t=%d bound=%d att=%d vers=%s cv=%d sv=%d calpn=%s salpn=%s c0=%s s0=%s cids=%s ccids=%s acc=%s echo=%s cleft=%d sleft=%d redial=%s clag=%d leaked=%s",
+		o.dial, boolTxt(o.hang), o.t.Nanoseconds(), o.bound.Nanoseconds(), o.attempts, o.vers, o.cv, o.sv, o.calpn, o.salpn, boolTxt(o.c0), boolTxt(o.s0), o.cids, o.ccids, o.acc, o.echo, o.cleft, o.sleft, o.redial, o.clag, boolTxt(o.leaked)), z)
 }
 
 func z2(a, b string) string { return a + b }
@@ -992,7 +1109,7 @@ func liveCount(t *quic.Transport) int {
 
 // run executes the scenario inside a synctest bubble.
 func (sc *scenario) run() (out *outcome) {
-	out = &outcome{cids: "-", ccids: "-", vers: "-", acc: "-", echo: "-", redial: "-", calpn: "-", salpn: "-"}
+	out = &outcome{cids: "-", ccids: "-", vers: "-", clag: -1, acc: "-", echo: "-", redial: "-", calpn: "-", salpn: "-"}
 	start := time.Now()
 	savedRand := rand.Reader
 	rand.Reader = &detRand{r: vh.NewRand(sc.seed ^ 0x5eed)}
@@ -1008,14 +1125,15 @@ func (sc *scenario) run() (out *outcome) {
 	sc.tracing = true
 	sim := &simnet.Simnet{Router: sc.nw}
 	cpc := sim.NewEndpoint(clientAddr, simnet.NodeBiDiLinkSettings{})
-	spc := sim.NewEndpoint(serverAddr, simnet.NodeBiDiLinkSettings{Latency: oneWay})
+	spc := sim.NewEndpoint(serverAddr, simnet.NodeBiDiLinkSettings{}) // the latency is applied by the delivery queue
 	if err := sim.Start(); err != nil {
 		out.dial = "E:setup"
 		return
 	}
-	sc.cpc = cpc
+	sc.cpc, sc.spc = cpc, spc
+	sc.srec = &recorder{}
 	v1, v2 := quic.Version1, quic.Version2
-	sconf := &quic.Config{}
+	sconf := &quic.Config{Tracer: func(context.Context, bool, quic.ConnectionID) qlogwriter.Trace { return qtrace{sc.srec} }}
 	cconf := &quic.Config{Tracer: func(context.Context, bool, quic.ConnectionID) qlogwriter.Trace { return qtrace{sc.rec} }}
 	switch sc.spec.vn {
 	case "ok":
@@ -1026,6 +1144,7 @@ func (sc *scenario) run() (out *outcome) {
 		cconf.Versions = []quic.Version{v2}
 	}
 	str := &quic.Transport{Conn: spc}
+	sc.str = str
 	if sc.spec.retry {
 		str.VerifySourceAddress = func(net.Addr) bool { return true }
 	}
@@ -1091,9 +1210,43 @@ func (sc *scenario) run() (out *outcome) {
 		c   *quic.Conn
 		err error
 	}
-	attempt := func(bound time.Duration) (dialRes, bool, time.Duration, int64) {
+	// The application may cancel the dial context at any moment: at a generated virtual instant, or exactly when
+	// the client logs a given event (i.e. from inside its run loop: right after a genuine Version Negotiation packet
+	// was acted upon, a Retry was accepted, the first packet was processed). Dial must then return at once.
+	var cancelledAt atomic.Int64 // virtual ns since start, 0: not cancelled by the scenario
+	leaked := false
+	attempt := func(bound time.Duration, withCancel bool) (dialRes, bool, time.Duration, int64) {
 		ctx, cancel := context.WithCancel(context.Background())
 		defer cancel()
+		doCancel := func() {
+			if cancelledAt.CompareAndSwap(0, int64(time.Since(start))+1) {
+				sc.cancelled.Store(true)
+				cancel()
+			}
+		}
+		if withCancel {
+			switch c := sc.spec.cancel; {
+			case strings.HasPrefix(c, "t"):
+				tmc := time.AfterFunc(time.Duration(vh.Atoi64(c[1:]))*time.Millisecond, doCancel)
+				defer tmc.Stop()
+			case c == "vn" || c == "retry" || c == "first":
+				sc.rec.Lock()
+				sc.rec.hook = func(ev qlogwriter.Event) {
+					switch e := ev.(type) {
+					case qlog.VersionInformation:
+						if c == "vn" && len(e.ServerVersions) > 0 {
+							doCancel()
+						}
+					case qlog.PacketReceived:
+						if (c == "retry" && e.Header.PacketType == qlog.PacketTypeRetry) || (c == "first" && e.Header.PacketType == qlog.PacketTypeInitial) {
+							doCancel()
+						}
+					}
+				}
+				sc.rec.Unlock()
+				defer func() { sc.rec.Lock(); sc.rec.hook = nil; sc.rec.Unlock() }()
+			}
+		}
 		ch := make(chan dialRes, 1)
 		t0 := time.Now()
 		go func() {
@@ -1107,15 +1260,30 @@ func (sc *scenario) run() (out *outcome) {
 			return r, false, time.Since(t0), int64(monotime.Now())
 		case <-tm.C:
 			cancel()
-			r := <-ch
-			return r, true, time.Since(t0), int64(monotime.Now())
+			// a Dial that does not even return after its context is cancelled is abandoned (reported as a hang)
+			tm2 := time.NewTimer(5 * time.Second)
+			defer tm2.Stop()
+			select {
+			case r := <-ch:
+				return r, true, time.Since(t0), int64(monotime.Now())
+			case <-tm2.C:
+				leaked = true
+				return dialRes{nil, errors.New("dial never returned")}, true, time.Since(t0), int64(monotime.Now())
+			}
 		}
 	}
 	hsTimeout := 2 * protocol.DefaultHandshakeIdleTimeout
 	// a dial may be restarted once per version negotiation; every attempt is bounded by the handshake timeout
 	out.bound = 2*hsTimeout + time.Second
-	r, hang, took, monoNow := attempt(out.bound)
+	r, hang, took, monoNow := attempt(out.bound, true)
+	returnedAt := int64(time.Since(start))
 	out.dial, out.hang, out.t, out.monoNow = errClass(r.err), hang, took, monoNow
+	out.clag = -1
+	if ca := cancelledAt.Load(); ca != 0 {
+		// how long after the cancellation did Dial return (virtual time)?
+		out.clag = returnedAt - (ca - 1)
+	}
+	out.leaked = leaked
 	time.Sleep(time.Microsecond) // settle (the delivery goroutine owns synctest.Wait)
 	sc.noteConns()
 	sc.mu.Lock()
@@ -1229,8 +1397,9 @@ func (sc *scenario) run() (out *outcome) {
 	for len(accCh) > 0 {
 		<-accCh
 	}
+	time.Sleep(time.Second) // datagrams of the first dial that are still in flight (possibly mutated) arrive before the re-dial exists
 	if sc.spec.vn != "fail" {
-		r2, hang2, _, _ := attempt(out.bound)
+		r2, hang2, _, _ := attempt(out.bound, false)
 		out.redial = errClass(r2.err)
 		if hang2 {
 			out.redial = "hang"
